@@ -21,7 +21,8 @@ def J(harness, runs, crate="sim", **kw):
 
 
 PLAN = {
-    "C01": {"quick": [J("udp_store", 40000)], "thorough": [J("udp_store", 3000000), J("udp_sys", 50000)]},
+    "C01": {"quick": [J("udp_store", 40000), J("udp_sys", 1600), J("export_crash", 6000)],
+            "thorough": [J("udp_store", 3000000), J("udp_sys", 50000), J("export_crash", 200000)]},
     "C03": {"quick": [J("udp_sys", 1600), J("http_sys", 3000), J("ws_sys", 2000), J("udp_store", 15000), J("http_store", 15000)],
             "thorough": [J("udp_sys", 50000), J("http_sys", 100000), J("ws_sys", 60000), J("udp_store", 500000), J("http_store", 500000)]},
     "C06": {"quick": [J("udp_sys", 3200)], "thorough": [J("udp_sys", 100000)]},
@@ -35,11 +36,11 @@ PLAN = {
             "thorough": [J("udp_store", 500000), J("http_store", 1500000), J("ws_store", 2000000), J("lattice", 4000)]},
     "C04": {"quick": [J("udp_conc", 320, crate="conc")], "thorough": [J("udp_conc", 4000, crate="conc")]},
     "C05": {"quick": [J("validator", 400000), J("udp_sys", 800)], "thorough": [J("validator", 10000000), J("udp_sys", 50000)]},
-    "C07": {"quick": [J("http_store", 60000)], "thorough": [J("http_store", 3000000), J("http_sys", 60000)]},
-    "C08": {"quick": [J("ws_store", 150000)], "thorough": [J("ws_store", 3000000), J("ws_sys", 60000)]},
-    "C09": {"quick": [J("ws_store", 150000)], "thorough": [J("ws_store", 3000000), J("ws_sys", 60000)]},
-    "C10": {"quick": [J("udp_store", 25000), J("http_store", 40000), J("ws_store", 80000)],
-            "thorough": [J("udp_store", 1000000), J("http_store", 1000000), J("ws_store", 1000000)]},
+    "C07": {"quick": [J("http_store", 60000), J("http_sys", 2500)], "thorough": [J("http_store", 3000000), J("http_sys", 60000)]},
+    "C08": {"quick": [J("ws_store", 150000), J("ws_sys", 2500)], "thorough": [J("ws_store", 3000000), J("ws_sys", 60000)]},
+    "C09": {"quick": [J("ws_store", 150000), J("ws_sys", 2500)], "thorough": [J("ws_store", 3000000), J("ws_sys", 60000)]},
+    "C10": {"quick": [J("udp_store", 25000), J("http_store", 40000), J("ws_store", 80000), J("udp_sys", 1200), J("http_sys", 2000), J("ws_sys", 2000)],
+            "thorough": [J("udp_store", 1000000), J("http_store", 1000000), J("ws_store", 1000000), J("udp_sys", 30000), J("http_sys", 30000), J("ws_sys", 30000)]},
     "C11": {"quick": [J("accesslist", 4000), J("udp_sys", 1200), J("http_sys", 2000), J("ws_sys", 1500)],
             "thorough": [J("accesslist", 200000), J("udp_sys", 30000), J("http_sys", 30000), J("ws_sys", 30000)]},
     "C20": {"quick": [J("udp_store", 30000), J("udp_sys", 1200), J("export_crash", 12000)],
